@@ -11,14 +11,11 @@ import YaegiVerif.Proofs.C15Decls
   C15 — package-level variables initialise in dependency order; then init functions in source
   order; then main. Property theorems.
 
-  Full statement (not true of the code: `full_statement_fails`):
-      for every package p,  runY facts p = Spec.runGoS p
+  Full statement, proved for every package (`init_order`, `src_init_order`; no side condition since
+  the repair of F15-9, fb8122a):
+      runY facts p = Spec.runGoS p
   — the program logs exactly what the Go specification's rules prescribe when every variable
   specification (after `var a, b = x, y` has been taken apart) is one node of the ordering.
-  Proved (`init_order_partial`, `src_init_order_partial`) under the one side condition
-  `operandsFirst`: no package-level comma-ok declaration `var v, ok = m[k]` / `<-c` stands before the
-  declaration of `m` / `c` (there `gta` panics: finding F15-9, `comma_ok_witness`); packages without
-  such declarations satisfy it (`operandsFirst_of_none`).
   Its ingredients, each for every input: the ordering loop is the specification's
   (`orderY_eq_spec`, since the repair of F15); the dependencies `getVarDependencies` collects are
   the specification's reference relation, transitively through function and method bodies
@@ -250,30 +247,25 @@ theorem cycle_rejection_eq_spec (p : Pkg) :
     orderY (collectDepsY Generated.C15.depFacts p) = .loop ↔ orderGo (goStepDeps p) = .loop := by
   rw [orderY_collected_eq_spec]
 
-/-- with the facts read from the source `gta` rejects a package only for a comma-ok declaration
-    that stands before its operand (a multi-value declaration before its callee is retried: F15-7) -/
-theorem gtaRejects_expected (p : Pkg) : gtaRejects Expected.C15.depFacts p = !operandsFirst p := by
-  simp [gtaRejects, operandsFirst, Expected.C15.depFacts]
+/-- with the facts read from the source `gta` rejects no package of the model: it comes back to a
+    multi-value declaration until its callee (F15-7) or the operand of its comma-ok source (F15-9) is
+    declared -/
+theorem gtaRejects_expected (p : Pkg) : gtaRejects Expected.C15.depFacts p = false := by
+  simp [gtaRejects, gtaPanics, Expected.C15.depFacts]
 
-/-- what `Eval` of a file does, for the steps read from the source: nothing if `gta` stops at a
-    comma-ok declaration; else the variables in the order decided by the loop of `genGlobalVarDecl`,
-    then the `init` functions in source order, then `main` — or the "variable definition loop" error
-    before anything ran -/
+/-- what `Eval` of a file does, for the steps read from the source: the variables in the order
+    decided by the loop of `genGlobalVarDecl`, then the `init` functions in source order, then
+    `main` — or the "variable definition loop" error before anything ran -/
 theorem runY_expected (p : Pkg) :
     runY Expected.C15.execFacts Expected.C15.depFacts p =
-      if operandsFirst p then
-        match orderY (collectDepsY Expected.C15.depFacts p) with
-        | .ok o => ⟨labelsOf (stepsGo p.vars) o ++ p.inits ++ p.main.toList, false⟩
-        | _ => ⟨[], true⟩
-      else ⟨[], true⟩ := by
+      match orderY (collectDepsY Expected.C15.depFacts p) with
+      | .ok o => ⟨labelsOf (stepsGo p.vars) o ++ p.inits ++ p.main.toList, false⟩
+      | _ => ⟨[], true⟩ := by
   unfold runY
   rw [gtaRejects_expected]
-  cases operandsFirst p with
-  | false => rfl
-  | true =>
-    simp only [Bool.not_true, Bool.false_eq_true, if_false, if_true]
-    cases orderY (collectDepsY Expected.C15.depFacts p) <;>
-      simp [Expected.C15.execFacts, runSteps, List.append_assoc, Pkg.seenBy, specsY_expected]
+  simp only [Bool.false_eq_true, if_false]
+  cases orderY (collectDepsY Expected.C15.depFacts p) <;>
+    simp [Expected.C15.execFacts, runSteps, List.append_assoc, Pkg.seenBy, specsY_expected]
 
 /-- the same for a directory loaded by `importSrc` -/
 theorem runImportY_expected (p : Pkg) :
@@ -282,12 +274,9 @@ theorem runImportY_expected (p : Pkg) :
   rw [runY_expected]
   unfold runImportY
   rw [gtaRejects_expected]
-  cases operandsFirst p with
-  | false => rfl
-  | true =>
-    simp only [Bool.not_true, Bool.false_eq_true, if_false, if_true]
-    cases orderY (collectDepsY Expected.C15.depFacts p) <;>
-      simp [Expected.C15.execFacts, runSteps, List.append_assoc, Pkg.seenBy, specsY_expected]
+  simp only [Bool.false_eq_true, if_false]
+  cases orderY (collectDepsY Expected.C15.depFacts p) <;>
+    simp [Expected.C15.execFacts, runSteps, List.append_assoc, Pkg.seenBy, specsY_expected]
 
 theorem collectDepsY_length (d : DepFacts) (p : Pkg) : (collectDepsY d p).length = (specsY d p.vars).length := by
   unfold collectDepsY
@@ -304,10 +293,6 @@ theorem init_then_main (p : Pkg) (evs : List String)
   rw [exec_tie, dep_tie, runImportY_expected, or_self] at h
   rw [dep_tie]
   rw [runY_expected] at h
-  cases hof : operandsFirst p with
-  | false => simp [hof] at h
-  | true =>
-  simp only [hof, if_true] at h
   cases ho : orderY (collectDepsY Expected.C15.depFacts p) with
   | ok o =>
     simp only [ho, Trace.mk.injEq, and_true] at h
@@ -319,18 +304,17 @@ theorem init_then_main (p : Pkg) (evs : List String)
   | loop => simp [ho] at h
   | fuel => simp [ho] at h
 
-/-- **C15, for every package that `gta` accepts**: the program logs exactly what the Go
-    specification's rules prescribe with one node per initialisation step — the steps in the
-    specification's order (or both reject the package: initialization cycle), then the init functions
-    in source order, then main. The only side condition is `operandsFirst` (no `var v, ok = m[k]` /
-    `<-c` before the declaration of `m` / `c`: F15-9, `comma_ok_witness`); whatever the variables
-    refer to and however. (Before the repairs of round 3 the domain of `init_order_partial` also
+/-- **C15, for every package**: the program logs exactly what the Go specification's rules
+    prescribe with one node per initialisation step — the steps in the specification's order (or
+    both reject the package: initialization cycle), then the init functions in source order, then
+    main. No side condition: whatever the variables refer to and however, whatever the order of the
+    declarations. (Before the repairs of rounds 3 and 4 this was `init_order_partial`, on a domain that
     excluded dependencies through functions, multi-value declarations before their callee or read by
-    functions, paired declarations, shadowing locals, several blank variables and self references.) -/
-theorem init_order_partial (p : Pkg) (h : operandsFirst p = true) :
+    functions, comma-ok declarations before their operand, paired declarations, shadowing locals,
+    several blank variables and self references.) -/
+theorem init_order (p : Pkg) :
     runY Expected.C15.execFacts Expected.C15.depFacts p = runGoS p := by
-  rw [runY_expected, h]
-  simp only [if_true]
+  rw [runY_expected]
   unfold runGoS
   have := orderY_collected_eq_spec p
   rw [dep_tie] at this
@@ -339,30 +323,21 @@ theorem init_order_partial (p : Pkg) (h : operandsFirst p = true) :
 
 /-- the same statement for the facts regenerated from the source on this run, for a file and for a
     directory -/
-theorem init_order_generated_partial (p : Pkg) (h : operandsFirst p = true) :
+theorem init_order_generated (p : Pkg) :
     runY Generated.C15.execFacts Generated.C15.depFacts p = runGoS p ∧
     runImportY Generated.C15.execFacts Generated.C15.depFacts p = runGoS p := by
   rw [exec_tie, dep_tie, runImportY_expected]
-  exact ⟨init_order_partial p h, init_order_partial p h⟩
+  exact ⟨init_order p, init_order p⟩
 
-/-- a package without comma-ok declarations satisfies the side condition: for those the statement
-    is unconditional (every shape the repaired findings were about is among them) -/
-theorem operandsFirst_of_none (p : Pkg) (h : p.vars.all (fun v => !v.operandLater) = true) : operandsFirst p = true := by
-  unfold operandsFirst operandLate
-  simp only [List.all_eq_true, Bool.not_eq_true'] at h
-  simp only [Bool.not_eq_true', List.any_eq_false, Bool.and_eq_true, not_and, Bool.not_eq_true]
-  intro v hv _
-  exact h v hv
-
-/-- **compared with the toolchain** (one node per variable): the same log whenever, besides, the two
+/-- **compared with the toolchain** (one node per variable): the same log whenever the two
     readings of the specification agree on the package (`dom`; what it excludes: `one_node_witness`) -/
-theorem init_order_toolchain_partial (p : Pkg) (h0 : operandsFirst p = true) (h : dom p = true) :
+theorem init_order_toolchain_partial (p : Pkg) (h : dom p = true) :
     runY Generated.C15.execFacts Generated.C15.depFacts p = runGo p ∧
     runImportY Generated.C15.execFacts Generated.C15.depFacts p = runGo p := by
   unfold dom at h
   rw [decide_eq_true_eq] at h
   rw [← h]
-  exact init_order_generated_partial p h0
+  exact init_order_generated p
 
 /-- the domain is large: it contains every package whose specifications declare one variable each
     (it also contains most of the others: `one_node_witness` shows what it takes to leave it) -/
@@ -371,23 +346,13 @@ theorem dom_of_single (p : Pkg) (h : p.vars.all single = true) : dom p = true :=
 
 /-- so for those packages the interpreter logs what the compiled program logs -/
 theorem init_order_toolchain_single (p : Pkg) (h : p.vars.all single = true) :
-    runY Generated.C15.execFacts Generated.C15.depFacts p = runGo p := by
-  refine (init_order_toolchain_partial p ?_ (dom_of_single p h)).1
-  unfold operandsFirst operandLate
-  simp only [Bool.not_eq_true', List.any_eq_false, Bool.and_eq_true, not_and, Bool.not_eq_true]
-  intro v hv hm
-  -- a specification with one name is not a multi-value declaration
-  have hs : single v = true := (List.all_eq_true.mp h) v hv
-  unfold single at hs
-  unfold VarSpec.multi at hm
-  simp only [Bool.and_eq_true, beq_iff_eq, decide_eq_true_eq] at hs hm
-  omega
+    runY Generated.C15.execFacts Generated.C15.depFacts p = runGo p :=
+  (init_order_toolchain_partial p (dom_of_single p h)).1
 
 /-- the class label the harness uses is "in-domain" exactly on the domain of that theorem -/
-theorem classify_in_domain_iff (p : Pkg) :
-    classify p = "in-domain" ↔ (operandsFirst p = true ∧ dom p = true) := by
+theorem classify_in_domain_iff (p : Pkg) : classify p = "in-domain" ↔ dom p = true := by
   unfold classify
-  cases operandsFirst p <;> cases dom p <;> simp
+  cases dom p <;> simp
 
 /-! ### which declarations run as init functions (for every list of declarations)
 
@@ -499,35 +464,33 @@ theorem src_exec_sequence (s : SrcPkg) (evs : List String)
   rw [hevs, hev]
   rfl
 
-/-- **C15 for every package given as source that `gta` accepts** (file or directory, facts
-    regenerated from the source): whatever functions, methods, types and local variables called
-    `init`, `Init`, `init_`, … the package declares, in however many files, whatever its variables
-    refer to and however, the program logs exactly what the Go specification's rules prescribe with
-    one node per initialisation step. Side condition: `operandsFirst` only. -/
-theorem src_init_order_partial (s : SrcPkg) (h : operandsFirst (toPkgGo s) = true) :
+/-- **C15 for every package given as source** (file or directory, facts regenerated from the
+    source): whatever functions, methods, types and local variables called `init`, `Init`, `init_`, …
+    the package declares, in however many files, whatever its variables refer to and however, the
+    program logs exactly what the Go specification's rules prescribe with one node per
+    initialisation step. No side condition. -/
+theorem src_init_order (s : SrcPkg) :
     runSrcY Generated.C15.execFacts Generated.C15.initFacts Generated.C15.depFacts s = runSrcGoS s ∧
     runSrcImportY Generated.C15.execFacts Generated.C15.initFacts Generated.C15.depFacts s = runSrcGoS s := by
   unfold runSrcY runSrcImportY runSrcGoS
   rw [toPkg_eq_spec]
-  obtain ⟨h1, h2⟩ := init_order_generated_partial (toPkgGo s) h
+  obtain ⟨h1, h2⟩ := init_order_generated (toPkgGo s)
   rw [h1, h2]
   exact ⟨rfl, rfl⟩
 
-/-- compared with the toolchain, on the packages where, besides, the two readings agree -/
-theorem src_init_order_toolchain_partial (s : SrcPkg) (h0 : operandsFirst (toPkgGo s) = true)
-    (h : dom (toPkgGo s) = true) :
+/-- compared with the toolchain, on the packages where the two readings agree -/
+theorem src_init_order_toolchain_partial (s : SrcPkg) (h : dom (toPkgGo s) = true) :
     runSrcY Generated.C15.execFacts Generated.C15.initFacts Generated.C15.depFacts s = runSrcGo s ∧
     runSrcImportY Generated.C15.execFacts Generated.C15.initFacts Generated.C15.depFacts s = runSrcGo s := by
   unfold runSrcY runSrcImportY runSrcGo
   rw [toPkg_eq_spec]
-  obtain ⟨h1, h2⟩ := init_order_toolchain_partial (toPkgGo s) h0 h
+  obtain ⟨h1, h2⟩ := init_order_toolchain_partial (toPkgGo s) h
   rw [h1, h2]
   exact ⟨rfl, rfl⟩
 
 /-- the label the harness uses for a package given as source is "in-domain" exactly on the domain
     of `src_init_order_toolchain_partial` -/
-theorem classifySrc_in_domain_iff (s : SrcPkg) :
-    classifySrc s = "in-domain" ↔ (operandsFirst (toPkgGo s) = true ∧ dom (toPkgGo s) = true) :=
+theorem classifySrc_in_domain_iff (s : SrcPkg) : classifySrc s = "in-domain" ↔ dom (toPkgGo s) = true :=
   classify_in_domain_iff (toPkgGo s)
 
 /-! non-vacuity and sensitivity: two files with look-alikes between two init functions
@@ -667,26 +630,20 @@ theorem one_node_novalue_witness :
     runGo pkgOneNodeNoValue = ⟨["u", "w", "main"], false⟩ := by
   decide
 
-/-- **F15-9 (open)**: `var v, ok = mp[lg("v")]; var mp = map[int]int{7: lg("mp")}` — `gta` needs the
-    type of `mp` when it meets the comma-ok declaration and panics; with `mp` declared first the
-    package runs, and in the specification's order -/
+/-- F15-9 (fixed by fb8122a): `var v, ok = mp[lg("v")]; var mp = map[int]int{7: lg("mp")}` — `gta`
+    comes back to the comma-ok declaration when the type of `mp` is known; with the decisions of the
+    code before the repair (`operandRetry := false`) it panicked and nothing ran -/
 def pkgCommaOk (late : Bool) : Pkg :=
   ⟨(if late then id else List.reverse)
      [⟨["v", "ok"], [⟨"v", [⟨"mp", true⟩, ⟨"lg", true⟩]⟩], false, late⟩, v1 "mp" []], helpers, [], some "main"⟩
-theorem comma_ok_witness :
-    classify (pkgCommaOk true) = "comma-ok-before-operand" ∧
-    runY facts deps (pkgCommaOk true) = ⟨[], true⟩ ∧ runGoS (pkgCommaOk true) = ⟨["mp", "v", "main"], false⟩ ∧
+example :
+    classify (pkgCommaOk true) = "in-domain" ∧
+    runY facts deps (pkgCommaOk true) = ⟨["mp", "v", "main"], false⟩ ∧
     runGo (pkgCommaOk true) = ⟨["mp", "v", "main"], false⟩ ∧
-    classify (pkgCommaOk false) = "in-domain" ∧
+    runY facts { deps with operandRetry := false } (pkgCommaOk true) = ⟨[], true⟩ ∧
+    gtaPanics { deps with operandRetry := false } (pkgCommaOk true) = true ∧
     runY facts deps (pkgCommaOk false) = ⟨["mp", "v", "main"], false⟩ ∧
-    runGo (pkgCommaOk false) = ⟨["mp", "v", "main"], false⟩ := by
-  decide
-
-/-- the full statement fails (F15-9) -/
-theorem full_statement_fails : ¬ ∀ p : Pkg, runY facts deps p = runGoS p := by
-  intro h
-  have := h (pkgCommaOk true)
-  revert this
+    runY facts { deps with operandRetry := false } (pkgCommaOk false) = ⟨["mp", "v", "main"], false⟩ := by
   decide
 
 /-- compared with the toolchain the full statement still fails (F15-8) -/
